@@ -278,6 +278,25 @@ def run(ctx: Ctx):
                 ctx.fail(cons, gw.loc(gt), "after taking a message from the queue the writer can reach its "
                          "next iteration (or end) without task_done(): has_queued_messages stays true "
                          "for ever and a CLOSING connection is never closed before the wait timeout")
+        # ... and the node is woken only after the message counts as done: a wake-up that comes
+        # first lets the I/O loop flush the buffer while has_queued_messages is still true, skip the
+        # close, and nothing wakes it again
+        cons = "work_write_queue:wake-up-after-task_done"
+        ctx.inst(cons)
+        sigs = [x for x in gw.nodes if any(A.call_name(c) == "self.demand_attention" for c in x.calls())]
+        heads = [x for x in gw.nodes if x.kind == "loop"]
+        if not sigs:
+            ctx.fail(cons, ww.loc(), "the writer never wakes the node after appending a message")
+        for sg in sigs:
+            after = gw.reach([d for l, d in sg.succ if l not in ("exc", "raise")], blocked=heads)
+            late = [d for d in dones if d in after]
+            if late:
+                ctx.fail(cons, gw.loc(sg), "the writer wakes the node (demand_attention) before "
+                         "task_done(): the node thread can flush the buffer while has_queued_messages "
+                         "is still true, leave a PEER_CLOSING connection open, and is never woken "
+                         "again - the rejected (3010) connection stays registered and stop() waits its "
+                         "full timeout")
+                break
     # the interrupt site only sees the wake-ups that are actually taken from the pipe
     from .common_node import wakeup_tokens_all_handled
     wakeup_tokens_all_handled(ctx, "C18-R3b")
